@@ -43,26 +43,27 @@ type propInfo struct {
 }
 
 type Sim struct {
-	rng       *rand.Rand
-	H         *History
-	node      *Node
-	users     []Key
-	vals      []Key
-	all       []Key
-	height    int64
-	sets      map[int64][]ValUp // validator set that signs block h
-	nonces    map[string]uint64
-	bal       map[string]*big.Int
-	stakes    []stakeInfo
-	props     []propInfo
-	params    Params
-	rewards   map[string]*big.Int
-	recent    []*Built // recently delivered transactions (for replays)
-	profile   string
-	pending   []*TxSpec         // follow-up transactions of multi-step generator moves
-	lastSig   map[string][]byte // signature bytes of the last successful transaction per sender
-	script    func(s *Sim, h int64) []*TxSpec
-	contracts [][]byte // deployed contract addresses (top-level deployments)
+	rng            *rand.Rand
+	H              *History
+	node           *Node
+	users          []Key
+	vals           []Key
+	all            []Key
+	height         int64
+	sets           map[int64][]ValUp // validator set that signs block h
+	nonces         map[string]uint64
+	bal            map[string]*big.Int
+	stakes         []stakeInfo
+	props          []propInfo
+	params         Params
+	rewards        map[string]*big.Int
+	recent         []*Built // recently delivered transactions (for replays)
+	profile        string
+	pending        []*TxSpec         // follow-up transactions of multi-step generator moves
+	lastSig        map[string][]byte // signature bytes of the last successful transaction per sender
+	script         func(s *Sim, h int64) []*TxSpec
+	contracts      [][]byte // deployed contract addresses (top-level deployments)
+	scriptEvidence [][]byte // evidence a script wants in the current block
 }
 
 var e18 = new(big.Int).Exp(big.NewInt(10), big.NewInt(18), nil)
@@ -604,7 +605,11 @@ func (s *Sim) Step() error {
 		}
 	}
 	if r.Intn(14) == 0 && len(s.all) > 0 {
-		b.Evidence = append(b.Evidence, s.pick(s.all).Addr)
+		if len(cur) > 0 && r.Intn(3) > 0 {
+			b.Evidence = append(b.Evidence, cur[r.Intn(len(cur))].Addr)
+		} else {
+			b.Evidence = append(b.Evidence, s.pick(s.all).Addr)
+		}
 		if r.Intn(4) == 0 {
 			b.Evidence = append(b.Evidence, s.pick(s.all).Addr)
 		}
@@ -617,7 +622,8 @@ func (s *Sim) Step() error {
 	if s.script != nil {
 		scripted = s.script(s, h)
 		ntx = len(scripted)
-		b.Evidence = nil
+		b.Evidence = s.scriptEvidence
+		s.scriptEvidence = nil
 		for i := range b.Votes {
 			b.Votes[i].Signed = true
 		}
